@@ -107,6 +107,10 @@ func (f FixedAlignmentPeriod) GetStartTime(t time.Time) time.Time {
 	epoch := time.Date(1970, 1, 1, 0, 0, 0, 0, f.Location)
 	since := t.Sub(epoch)
 	aligned := since.Truncate(f.Duration)
+	if aligned > since {
+		// Truncate rounds toward zero, for instants before the epoch we need to round down
+		aligned -= f.Duration
+	}
 	return epoch.Add(aligned)
 }
 
